@@ -209,9 +209,9 @@ PROPS["C08"] = {
 PROPS["C10"] = {
     "level": "proof",
     "technique": "Lean 4: LDL* reconstruction and the one-level nearest-plane norm identity over an arbitrary field (the algebra that makes the output spherical) + per-signature numerical evaluation of the full-depth identity ||s||^2 = sigma^2 * sum((mu-z)/sigma_leaf)^2 from per-leaf traces of the real signer",
-    "rule": "ops = sign_leaves: signatures with an injected generator, 2 keys x 60 per variant (thorough 4 x 1500); per signature the exact integer ||(s1,s2)||^2 recomputed from the signature bytes and public key by the specification arithmetic is compared (rel 1e-6) with sigma^2 * sum over the 2n leaf samples of ((mu - z)/sigma_leaf)^2 from the trace; leaf widths in [sigma_min, sigma_max]; norm within the bound; distinct by op line",
+    "rule": "ops = sign_leaves: signatures with an injected generator, 2 keys x 60 per variant (thorough 4 x 1500); per signature the exact integer ||(s1,s2)||^2 recomputed from the signature bytes and public key by the specification arithmetic is compared (rel 1e-6) with sigma^2 * sum over the 2n leaf samples of ((mu - z)/sigma_leaf)^2 from the trace; leaf widths in [sigma_min, sigma_max]; norm within the bound; sign_stats: per key 3 x 160 (thorough 40 x 400) signatures, mean of sum((mu-z)/sigma_leaf)^2/(2n) within six standard errors of 1 (second moment of every leaf sample); the leaf sampler's own ops (C09's quick generator without the two inputs of finding F7) against the model and the specification's blocks; distinct by op line",
     "exhaustive": {"quick": (False, ""), "thorough": (False, "")},
-    "level_text": "Machine-checked over any field: the 2x2 LDL* as ffldl computes it reconstructs the Gram block; one nearest-plane level turns the quadratic form into (t0'-z0)^2 d00 + (t1-z1)^2 d11 for ANY leaf outputs; normalised leaves sigma/sqrt(d) turn that into sigma^2 times the sum of squared normalised deviations. The full-depth identity is evaluated on every traced signature and is a sharp check of the Gram/LDL/normalise/ffSampling chain (a wrong sign, a skipped normalisation or a wrong leaf breaks it). NOT decided: statistical closeness of the law to the spherical discrete Gaussian (Klein/GPV), i.e. the leakage statement itself.",
+    "level_text": "Machine-checked over any field: the 2x2 LDL* as ffldl computes it reconstructs the Gram block; one nearest-plane level turns the quadratic form into (t0'-z0)^2 d00 + (t1-z1)^2 d11 for ANY leaf outputs; normalised leaves sigma/sqrt(d) turn that into sigma^2 times the sum of squared normalised deviations. The full-depth identity is evaluated on every traced signature and is a sharp check of the Gram/LDL/normalise/ffSampling chain (a wrong sign, a skipped normalisation or a wrong leaf breaks it). The leaf sampler is tied as in C09 (a deviation there is a deviation of the signature law) and an aggregate second-moment test over hundreds of signatures per key detects variance errors of about 1%. NOT decided: statistical closeness of the law to the spherical discrete Gaussian (Klein/GPV), i.e. the leakage statement itself.",
     "level_note": "Trusted: Lean kernel + Mathlib field_simp/ring; floating-point evaluation of the identity (tolerance 1e-6, observed 1e-12). The induction over the tree (split/merge isometries) is not formalised.",
     "trusted_base": TB_COMMON + ["f64 arithmetic in the trace evaluation"],
     "assumptions": [],
@@ -254,6 +254,6 @@ NOT_YET = {k: "check not built yet in this session (planned in DESIGN.md §7/§8
 
 # which extraction items (translator modules / groups of Params) each property's theorems and model depend on:
 # only these count as a broken tie for that property
-TIES = {'C01': ['Params/variants', 'Params/verify', 'Params/sign', 'Params/codec', 'Params/sigformat', 'Params/hash', 'Params/field', 'Params/keygen', 'FeltTables'], 'C02': ['Params/variants', 'Params/verify', 'Params/codec', 'Params/hash', 'Params/field', 'Params/pkformat', 'Params/sigformat', 'FeltTables'], 'C03': ['Params/codec', 'Params/skformat', 'Params/pkformat', 'Params/sigformat', 'Params/verify', 'Params/variants', 'Params/field', 'FeltTables'], 'C04': ['Params/keygen', 'Params/field', 'FeltTables', 'U32Tables'], 'C05': ['Params/skformat', 'Params/pkformat', 'Params/sigformat', 'Params/keygen', 'Params/field', 'Params/variants', 'FeltTables'], 'C06': ['Params/skformat', 'Params/pkformat', 'Params/sigformat', 'Params/field', 'Params/variants'], 'C07': ['Params/codec'], 'C08': ['Params/sign', 'Params/sigformat', 'Scan'], 'C09': ['Sampler'], 'C10': ['Params/variants', 'Params/sign', 'Params/keygen', 'CplxTable'], 'C11': ['FeltTables', 'Params/field'], 'C12': ['Params/field'], 'C13': ['CplxTable'], 'C14': ['Params/hash', 'Params/field'], 'C15': ['Scan', 'Sampler', 'Params/keygen'], 'C16': ['Params/skformat', 'Params/pkformat', 'Params/sigformat', 'Params/field', 'Params/keygen', 'Params/hash', 'Params/codec', 'Params/verify', 'Params/variants'], 'C17': ['U32Tables', 'Params/field']}
+TIES = {'C01': ['Params/variants', 'Params/verify', 'Params/sign', 'Params/codec', 'Params/sigformat', 'Params/hash', 'Params/field', 'Params/keygen', 'FeltTables'], 'C02': ['Params/variants', 'Params/verify', 'Params/codec', 'Params/hash', 'Params/field', 'Params/pkformat', 'Params/sigformat', 'FeltTables'], 'C03': ['Params/codec', 'Params/skformat', 'Params/pkformat', 'Params/sigformat', 'Params/verify', 'Params/variants', 'Params/field', 'FeltTables'], 'C04': ['Params/keygen', 'Params/field', 'Params/variants', 'FeltTables', 'U32Tables'], 'C05': ['Params/skformat', 'Params/pkformat', 'Params/sigformat', 'Params/keygen', 'Params/field', 'Params/variants', 'FeltTables'], 'C06': ['Params/skformat', 'Params/pkformat', 'Params/sigformat', 'Params/field', 'Params/variants'], 'C07': ['Params/codec'], 'C08': ['Params/sign', 'Params/sigformat', 'Scan'], 'C09': ['Sampler'], 'C10': ['Params/variants', 'Params/sign', 'Params/keygen', 'CplxTable', 'Sampler'], 'C11': ['FeltTables', 'Params/field'], 'C12': ['Params/field'], 'C13': ['CplxTable'], 'C14': ['Params/hash', 'Params/field'], 'C15': ['Scan', 'Sampler', 'Params/keygen'], 'C16': ['Params/skformat', 'Params/pkformat', 'Params/sigformat', 'Params/field', 'Params/keygen', 'Params/hash', 'Params/codec', 'Params/verify', 'Params/variants'], 'C17': ['U32Tables', 'Params/field']}
 for _k, _v in TIES.items():
     PROPS[_k]["ties"] = _v
